@@ -38,6 +38,7 @@ class LoopSpec:
     def __init__(self, pattern, inv, hints=None, name=None, sorts=None):
         self.pattern, self.inv, self.hints, self.name = pattern, inv, hints, name
         self.sorts = sorts or {}          # local name -> z3 sort (or tuple of sorts) used when the loop rule havocs it
+        self.kind = None                  # 'for' / 'while' when the loop is addressed by header
 
 
 class Ctx:
@@ -93,6 +94,7 @@ class Interp:
         self.attached = set()          # loop specs that attached on this path
         self.inline_only = False
         self.modular_calls = 0
+        self.callee_frames = {}        # simple callee name -> set of argument positions its contract allows it to write
         self.snapshot_yields = True
         self.opacity_events = []
         self.mbqi_fallback_ms = 0
@@ -637,10 +639,16 @@ class Interp:
         key = getattr(st, "_vc_loop", None)
         if key is None:
             return None
+        header = ast.unparse(st.iter) if isinstance(st, ast.For) else ast.unparse(st.test)
         spec = self.loopspecs.get(key)
         if spec is None:
+            # contracts may also address a loop by its header alone: key (function, "header:<text that must occur in the header>")
+            for (fn, k), sp in self.loopspecs.items():
+                if fn == key[0] and isinstance(k, str) and k.startswith("header:") and k[7:] in header and type(st).__name__.lower() == (sp.kind or type(st).__name__.lower()):
+                    spec = sp
+                    break
+        if spec is None:
             return None
-        header = ast.unparse(st.iter) if isinstance(st, ast.For) else ast.unparse(st.test)
         if spec.pattern is not None and spec.pattern not in header:
             raise Unsupported(f"loop contract {key} does not attach: header '{header}' no longer matches guard '{spec.pattern}'")
         self.attached.add(key)
@@ -671,7 +679,12 @@ class Interp:
                     if f.attr in MUTATING_METHODS and isinstance(f.value, ast.Name):
                         mutated.add(f.value.id)
                 # a repo function given a local mutable object may mutate it: conservatively havoc every Name argument
-                if (isinstance(f, ast.Name) and f.id not in PURE_FUNCS) or (isinstance(f, ast.Attribute) and f.attr not in PURE_BINNER):
+                if isinstance(f, ast.Name) and f.id in self.callee_frames:
+                    # the callee has a contract with a frame clause: only the arguments it may write count
+                    for pos, a in enumerate(node.args):
+                        if isinstance(a, ast.Name) and pos in self.callee_frames[f.id]:
+                            mutated.add(a.id)
+                elif (isinstance(f, ast.Name) and f.id not in PURE_FUNCS) or (isinstance(f, ast.Attribute) and f.attr not in PURE_BINNER):
                     for a in list(node.args) + [k.value for k in node.keywords]:
                         if isinstance(a, ast.Name):
                             mutated.add(a.id)
@@ -686,7 +699,10 @@ class Interp:
                 f = node.func
                 if isinstance(f, ast.Attribute) and isinstance(f.value, ast.Name) and f.value.id == name and f.attr in MUTATING_METHODS:
                     return False
-                if (isinstance(f, ast.Name) and f.id not in PURE_FUNCS) or (isinstance(f, ast.Attribute) and f.attr not in PURE_BINNER and f.attr not in MUTATING_BINNER):
+                if isinstance(f, ast.Name) and f.id in self.callee_frames:
+                    if any(isinstance(a, ast.Name) and a.id == name and pos in self.callee_frames[f.id] for pos, a in enumerate(node.args)):
+                        return False
+                elif (isinstance(f, ast.Name) and f.id not in PURE_FUNCS) or (isinstance(f, ast.Attribute) and f.attr not in PURE_BINNER and f.attr not in MUTATING_BINNER):
                     for a in list(node.args) + [k.value for k in node.keywords]:
                         if isinstance(a, ast.Name) and a.id == name:
                             return False
@@ -772,6 +788,10 @@ class Interp:
                 self.assume(L.unfold_left(arr, lo, hi))
             elif kind == "empty":
                 self.assume(L.empty_range(arr, lo, hi))
+            elif kind == "concat":
+                self.trust("lemma:rbag-window-concatenation (proved by induction in pyvc/lemmas.py)")
+                lo_, mid = lo
+                self.assume(L.concat(arr, lo_, mid, hi))
             else:
                 raise Unsupported(f"unknown hint {kind}")
 
